@@ -76,6 +76,9 @@ func init() {
 		} else {
 			sb.WriteString("\ndef kvAddBucketCacheCalls : List String := []\n")
 		}
+		// what the eviction callback of the LRU bucket cache does (NewIndexKVStore: second argument of expirable.NewLRU;
+		// [] = no callback): round 12, a bucket released on eviction / purge may still be in a lock-free reader's hands
+		sb.WriteString("\ndef kvNewStoreEvictCalls : List String := " + LeanStrList(lruEvictCallbackCalls(FindFunc(kvf, "", "NewIndexKVStore"))) + "\n")
 		// what createValue builds its index-kv reader on (the argument text of v1.NewIndexKVReader)
 		sb.WriteString("\ndef kvCreateValueReaderArgs : List String := " + LeanStrList(callArgTexts(FindFunc(kvf, "indexKVStore", "createValue"), "NewIndexKVReader")) + "\n")
 		// what the error branches of indexKVStore.Flush do besides returning the error
@@ -119,6 +122,14 @@ func init() {
 				return "", err
 			}
 		}
+		// ---- what the miss branch of createSeriesID reads (round 12: the LRU sequence cache may have dropped the metric):
+		// invertedIndex.getSeriesIDs = memory tables, then the kv family's snapshot; the memory tables = mutable, immutable
+		for _, p := range [][2]string{{"invertedGetSeriesIDsCalls", "getSeriesIDs"}, {"invertedFindFromMemCalls", "findSeriesIDsByKeyFromMem"}} {
+			if err := emit(p[0], FindFunc(mif, "invertedIndex", p[1]), "invertedIndex."+p[1]); err != nil {
+				return "", err
+			}
+		}
+		sb.WriteString("\ndef invertedFindFromMemTiers : List String := " + LeanStrList(identCallArgTexts(FindFunc(mif, "invertedIndex", "findSeriesIDsByKeyFromMem"), "findSeriesIDs")) + "\n")
 		// ---- createFn of the namespace / metric dictionaries (limits first, then the counter) and what createValue
 		// does when createFn fails
 		for _, pr := range [][2]string{{"metaGenNSIDCalls", "genNSID"}, {"metaGenMetricIDFnCalls", "genMetricID"}} {
@@ -415,6 +426,62 @@ func callArgTexts(fd *ast.FuncDecl, sel string) []string {
 			out = append(out, exprName(ce.Args[0]))
 		}
 		return true
+	})
+	return out
+}
+
+// identCallArgTexts: first-argument texts of the calls `name(arg, …)` (name a plain identifier, e.g. a local
+// closure) in fd's body, in source order.
+func identCallArgTexts(fd *ast.FuncDecl, name string) []string {
+	var out []string
+	if fd == nil || fd.Body == nil {
+		return out
+	}
+	ast.Inspect(fd.Body, func(n ast.Node) bool {
+		ce, ok := n.(*ast.CallExpr)
+		if !ok || len(ce.Args) == 0 {
+			return true
+		}
+		if id, ok := ce.Fun.(*ast.Ident); ok && id.Name == name {
+			out = append(out, exprName(ce.Args[0]))
+		}
+		return true
+	})
+	return out
+}
+
+// lruEvictCallbackCalls: the calls made inside the func literal passed as second argument of `….NewLRU(…)` /
+// `….NewLRU[K, V](…)` in fd's body (empty when the argument is nil or not a func literal).
+func lruEvictCallbackCalls(fd *ast.FuncDecl) []string {
+	out := []string{}
+	if fd == nil || fd.Body == nil {
+		return out
+	}
+	ast.Inspect(fd.Body, func(n ast.Node) bool {
+		ce, ok := n.(*ast.CallExpr)
+		if !ok || len(ce.Args) < 2 {
+			return true
+		}
+		fun := ce.Fun
+		switch x := fun.(type) {
+		case *ast.IndexExpr:
+			fun = x.X
+		case *ast.IndexListExpr:
+			fun = x.X
+		}
+		se, ok := fun.(*ast.SelectorExpr)
+		if !ok || se.Sel.Name != "NewLRU" {
+			return true
+		}
+		if fl, ok := ce.Args[1].(*ast.FuncLit); ok {
+			ast.Inspect(fl.Body, func(m ast.Node) bool {
+				if c2, ok := m.(*ast.CallExpr); ok {
+					out = append(out, exprName(c2.Fun))
+				}
+				return true
+			})
+		}
+		return false
 	})
 	return out
 }
